@@ -27,6 +27,10 @@ pub const OWN: &[&str] = &["panic", "oversize_accepted"];
 /// returns the first panic seen
 fn exercise(s: &dyn SuiteOps, h: &Harvest, item: &Item, seed: u64) -> Option<String> {
     let mut rng = SimRng::new(seed, "c12/exercise");
+    // if the honest run itself is broken (C01's business) the partner items are missing: skip
+    for k in [Kind::Setup, Kind::ClientReg, Kind::RegReq, Kind::RegResp, Kind::PwFile, Kind::ClientLogin, Kind::CredReq, Kind::CredResp, Kind::ServerLogin, Kind::CredFin] {
+        h.get(k)?;
+    }
     let nat = |k: Kind| Item::native(k, h.first(k));
     let pw = b"pw".as_slice();
     let ids = Ids::default();
@@ -77,11 +81,11 @@ fn decoder_job(ctx: &Ctx, s: &dyn SuiteOps, kind: Kind, others: &[Vec<u8>], n_ra
     let mut out = JobOut { evals: 0, decoded_ok: 0, exercised: 0, shapes: vec![], found: vec![], max_us: 0, sample: None };
     let Some(valids) = h.by_kind.get(&kind) else { return out };
     let v = valids[0].clone();
-    let item = s.decode(kind, Codec::Native, &v).expect("harness: valid decodes");
+    let Ok(item) = s.decode(kind, Codec::Native, &v) else { return out };
     let mut g = Gen::new(ctx.seed, &format!("gen/c12/{}/{:?}", s.name(), kind));
     let fl = fields(kind, &lens);
     for codec in BYTE_CODECS {
-        let enc = s.encode(&item, codec).expect("harness: valid encodes");
+        let Ok(enc) = s.encode(&item, codec) else { continue };
         let mut inputs: Vec<(String, Vec<u8>)> = vec![];
         for _ in 0..n_rand {
             let len = match g.below(4) {
@@ -309,7 +313,9 @@ pub fn run(ctx: &Ctx) -> Report {
     for s in [suites[0], suites[6], suites[12], suites[19]] {
         let h = harvest(s, ctx.seed, 1, false);
         for v in h.by_kind.values() {
-            others.push(v[0].clone());
+            if let Some(x) = v.first() {
+                others.push(x.clone());
+            }
         }
     }
     let mut jobs = vec![];
